@@ -25,3 +25,5 @@ import PvModel.Props.C16Keys
 #print axioms Pv.C16_rel_call_sound
 #print axioms Pv.C16_domain_keys_unbound
 #print axioms Pv.C16_run_constraints_tight
+#print axioms Pv.C16_labelled_answer_sound
+#print axioms Pv.C16_label_step
